@@ -236,6 +236,96 @@ def typed_writes(run):
                 break
 
 
+def multiband_and_decimal_writes(run):
+    """
+    (a) Multi-band blocks written into datasets of another data type / nodata value (findings D22): every band of every pixel of
+    window ∩ dataset reads back the block's value (rounded, clipped) or nodata.  (b) Blocks lying exactly on the grid of a dataset
+    with decimal coordinates, written without a window (`window=None`: the block's own extent) - finding D23: the write succeeds and
+    every pixel lands at its own location.
+    """
+    from homonim.raster_array import RasterArray
+    from rasterio.transform import Affine
+    from rasterio.windows import transform as win_transform
+    n, m = 5, 6
+    g = rasters.Grid(8 * 3000, 8 * 5000, 16, 16, m, n)
+    k = 0
+    for ddt, dnd in (('float32', float('nan')), ('float32', -9999.0), ('int16', -32768), ('uint8', 0), ('float64', float('nan')), ('uint16', None)):
+        for (r0, c0, rl, cl), w in (((0, 0, n, m), None), ((-1, -2, n + 2, m + 3), None), ((1, 1, 3, 4), (1, 3, 2, 5))):
+            k += 1
+            case = dict(i=7_800_000 + k, op='multi-band write', dataset_dtype=ddt, dataset_nodata=None if dnd is None else repr(dnd),
+                        block=(r0, c0, rl, cl), window=w)
+            barr = np.array([[[10 * b + r * 8 + c + 1 for c in range(cl)] for r in range(rl)] for b in range(3)], dtype='float32')
+            bvalid = np.ones((rl, cl), bool)
+            bvalid[rl // 2, cl // 2] = False
+            barr[:, ~bvalid] = np.nan
+            bg = rasters.Grid(g.x0 + c0 * g.px, g.ytop - r0 * g.py, g.px, g.py, cl, rl)
+            ra = RasterArray(barr.copy(), rasters.CRS3857, bg.transform, nodata=float('nan'))
+            p = run.tmpdir() / 'c20_mb.tif'
+            try:
+                with rio.Env(GDAL_TIFF_INTERNAL_MASK=True):
+                    with rio.open(p, 'w', driver='GTiff', width=m, height=n, count=3, dtype=ddt, crs=rasters.CRS3857, transform=g.transform,
+                                  nodata=dnd) as ds:
+                        ds.write(np.full((3, n, m), 7, dtype=ddt))
+                        ra.to_rio_dataset(ds, indexes=[1, 2, 3], window=None if w is None else Window(w[2], w[0], w[3] - w[2], w[1] - w[0]))
+                    with rio.open(p) as ds:
+                        back = ds.read().astype('float64')
+                        mk = ds.read_masks().astype(bool)
+            except Exception as ex:
+                run.fail(case, f'write of a 3-band block raised {type(ex).__name__}: {str(ex)[:100]}', signature=dict(kind='write-raises', bands=3))
+                continue
+            run.evaluations += 1
+            run.hist['multi-band writes'] += 1
+            run.nontrivial.add(('mbw', k))
+            ww = w if w is not None else (r0, r0 + rl, c0, c0 + cl)
+            bad = None
+            for b in range(3):
+                for r in range(n):
+                    for c in range(m):
+                        inwin = ww[0] <= r < ww[1] and ww[2] <= c < ww[3] and 0 <= r - r0 < rl and 0 <= c - c0 < cl
+                        if not inwin:
+                            if back[b, r, c] != 7:
+                                bad = (b, r, c, 'outside the window', float(back[b, r, c]))
+                            continue
+                        if bvalid[r - r0, c - c0]:
+                            if back[b, r, c] != barr[b, r - r0, c - c0] or not mk[b, r, c]:
+                                bad = (b, r, c, 'valid block pixel', float(back[b, r, c]), float(barr[b, r - r0, c - c0]))
+                        elif mk[b, r, c] and not (dnd is not None and np.isnan(dnd) and np.isnan(back[b, r, c])):
+                            bad = (b, r, c, 'invalid block pixel reads back valid', float(back[b, r, c]))
+            if bad:
+                run.fail(case, f'multi-band write: band/row/col {bad[:3]}: {bad[3:]}', signature=dict(kind='write-misplaced', bands=3))
+    # (b) decimal grids, window=None
+    for j, (x0, y0, res) in enumerate(((123456.7, 7654321.3, 0.3), (500000.05, 7000000.15, 0.45), (1e6 + 0.1, 8e6 + 0.7, 0.1), (25.000137, -33.000291, 1e-5))):
+        tr = Affine(res, 0, x0, 0, -res, y0)
+        N, M = 37, 41
+        p = run.tmpdir() / 'c20_dec.tif'
+        with rio.open(p, 'w', driver='GTiff', width=M, height=N, count=1, dtype='float32', crs=rasters.CRS3857, transform=tr, nodata=float('nan')) as ds:
+            ds.write(np.zeros((1, N, M), 'float32'))
+            blocks = ((5, 7, 9, 11), (0, 0, N, M), (20, 30, 17, 11), (1, 1, 1, 1), (N - 3, 0, 3, M))
+            for (r0, c0, rl, cl) in blocks:
+                k += 1
+                case = dict(i=7_800_000 + k, op='write without a window, decimal grid', origin=(x0, y0), res=res, block=(r0, c0, rl, cl))
+                blk = RasterArray(np.array([[r * 100 + c + 1 for c in range(c0, c0 + cl)] for r in range(r0, r0 + rl)], 'float32'), rasters.CRS3857,
+                                  win_transform(Window(c0, r0, cl, rl), tr), nodata=float('nan'))
+                try:
+                    blk.to_rio_dataset(ds, indexes=1)
+                except Exception as ex:
+                    run.fail(case, f'a block lying exactly on the dataset grid could not be written without a window: {type(ex).__name__}: '
+                             f'{str(ex)[:80]}', signature=dict(kind='write-raises', decimal_grid=True))
+                    continue
+                run.evaluations += 1
+                run.hist['writes without a window on decimal grids'] += 1
+                run.nontrivial.add(('decw', k))
+        with rio.open(p) as ds:
+            back = ds.read(1)
+        exp = np.zeros((N, M), 'float32')
+        for (r0, c0, rl, cl) in blocks:
+            exp[r0:r0 + rl, c0:c0 + cl] = np.array([[r * 100 + c + 1 for c in range(c0, c0 + cl)] for r in range(r0, r0 + rl)], 'float32')
+        if not np.array_equal(back, exp):
+            d = np.argwhere(back != exp)[0].tolist()
+            run.fail(dict(i=7_800_900 + j, op='write without a window, decimal grid', origin=(x0, y0), res=res),
+                     f'pixel {d} holds {float(back[tuple(d)])}, expected {float(exp[tuple(d)])}', signature=dict(kind='write-misplaced', decimal_grid=True))
+
+
 def rotated_reads(run):
     """
     Windows of datasets whose geo-transform has rotation / shear terms (and of south-up ones): the block read through a window -
@@ -516,6 +606,7 @@ def run_writes(run, rng, quick, idx0):
     typed_writes(run)
     near_nodata_io(run)
     rotated_reads(run)
+    multiband_and_decimal_writes(run)
     failed = {f['case']['i'] for f in run.failures}
     replies = common.model_batch(lines)
     if replies is None:
